@@ -229,6 +229,31 @@ fn full_system<R: MkResult>(uid: SysUid) -> impl FnMut(Commands, AllReaders, Loc
     }
 }
 
+/// Full reader set, commands only through a `ParamSet`.
+fn pset_system<R: MkResult>(uid: SysUid)
+    -> impl FnMut(ParamSet<(Commands, Query<Entity>)>, AllReaders, Local<u32>) -> R + Send + Sync + 'static
+{
+    let canary = Canary{ sys: uid };
+    let mut captured = 0u32;
+    move |mut ps: ParamSet<(Commands, Query<Entity>)>, mut readers: AllReaders, mut local: Local<u32>| -> R
+    {
+        let _ = &canary;
+        captured += 1;
+        *local += 1;
+        let ctx = begin_run(uid);
+        let second = ctx.script.as_ref().map(|s| s.take_twice).unwrap_or(false);
+        let mut held = Held::default();
+        let (readings, second_take) = readers.sample(true, second, &mut held);
+        push(Ev::RunBegin{ run: ctx.run, sys: uid, local_n: *local, captured_n: captured, readings: Some(readings), second_take });
+        push(Ev::ChangeSample{ changed: readers.changed(), resample: false });
+        drop(held);
+        let err = { let mut c = ps.p0(); queue_script(&mut c, uid, &ctx) };
+        let (again, _) = readers.sample(false, false, &mut Held::default());
+        push(Ev::BodyEnd{ run: ctx.run, readings: Some(again), err });
+        R::mk(err)
+    }
+}
+
 fn exclusive_system<R: MkResult>(uid: SysUid)
     -> impl FnMut(&mut World, &mut SystemState<AllReaders>, Local<u32>) -> R + Send + Sync + 'static
 {
@@ -273,6 +298,37 @@ fn minimal_system<R: MkResult>(uid: SysUid) -> impl FnMut(Commands, Local<u32>) 
         R::mk(err)
     }
 }
+
+/// A persistent reactor registered through `App::add_reactor` BEFORE `ReactPlugin` is added (the App extensions are
+/// written to work in either order). Its uid is only known once the pool systems exist, hence the cell.
+fn sentinel_system(cell: Arc<std::sync::atomic::AtomicU32>) -> impl FnMut(Commands, Local<u32>) + Send + Sync + 'static
+{
+    struct SentinelCanary(Arc<std::sync::atomic::AtomicU32>);
+    impl Drop for SentinelCanary
+    {
+        fn drop(&mut self)
+        {
+            let uid = self.0.load(std::sync::atomic::Ordering::Relaxed);
+            if uid != u32::MAX { push(Ev::CanaryDrop(uid as SysUid)); }
+        }
+    }
+    let canary = SentinelCanary(cell.clone());
+    let mut captured = 0u32;
+    move |mut c: Commands, mut local: Local<u32>|
+    {
+        let _ = &canary;
+        let uid = cell.load(std::sync::atomic::Ordering::Relaxed) as SysUid;
+        captured += 1;
+        *local += 1;
+        let ctx = begin_run(uid);
+        push(Ev::RunBegin{ run: ctx.run, sys: uid, local_n: *local, captured_n: captured, readings: None, second_take: None });
+        let err = queue_script(&mut c, uid, &ctx);
+        push(Ev::BodyEnd{ run: ctx.run, readings: None, err });
+    }
+}
+
+// (no insertion key: the initial components are inserted during set-up, before the sentinel has its uid)
+const SENTINEL_KEYS: [Key; 5] = [Key::Broadcast(0), Key::AnyEntityEvent(1), Key::ResourceMutation(0), Key::Mutation(1), Key::Removal(1)];
 
 fn wrong_system<R: MkResult>(uid: SysUid) -> impl FnMut(Commands, WrongReaders, Local<u32>) -> R + Send + Sync + 'static
 {
@@ -323,6 +379,9 @@ macro_rules! with_sys
             (Shape::Wrong, ResKind::Unit) => { let $s = wrong_system::<()>($uid); $body }
             (Shape::Wrong, ResKind::DropErr) => { let $s = wrong_system::<DropErr>($uid); $body }
             (Shape::Wrong, ResKind::WarnErr) => { let $s = wrong_system::<WarnErr>($uid); $body }
+            (Shape::PsetCmds, ResKind::Unit) => { let $s = pset_system::<()>($uid); $body }
+            (Shape::PsetCmds, ResKind::DropErr) => { let $s = pset_system::<DropErr>($uid); $body }
+            (Shape::PsetCmds, ResKind::WarnErr) => { let $s = pset_system::<WarnErr>($uid); $body }
             (Shape::NamedFn, _) => { let $s = named_fn; $body }
         }
     };
@@ -532,6 +591,15 @@ enum Action
     Probe(bool),
 }
 
+/// Every fifth payload owns the auto-despawn signal of a pool entity (prepared when the payload value is built).
+fn carry_for(case: &mut Case, id: u32) -> Option<u8>
+{
+    if id % 5 != 4 || case.pool.is_empty() { return None; }
+    let k = ((id / 5) as usize) % case.pool.len();
+    case.carry.insert(id, case.pool[k]);
+    Some(k as u8)
+}
+
 /// Resolves an op against the dynamic tables (at queue time, as user code would).
 fn resolve_op(op: &Op, own: Option<SysUid>) -> (Resolved, Action)
 {
@@ -556,7 +624,8 @@ fn resolve_op(op: &Op, own: Option<SysUid>) -> (Resolved, Action)
                     Some(e) =>
                     {
                         let id = case.new_payload();
-                        (Resolved::Payload{ id, sys: Some(uid) }, Action::SysEvent(e, *ty, id))
+                        let carries = carry_for(case, id);
+                        (Resolved::Payload{ id, sys: Some(uid), carries }, Action::SysEvent(e, *ty, id))
                     }
                     None => (Resolved::Skipped(SkipReason::NoToken), Action::Nothing),
                 }
@@ -564,12 +633,14 @@ fn resolve_op(op: &Op, own: Option<SysUid>) -> (Resolved, Action)
             Op::Broadcast(ty) =>
             {
                 let id = case.new_payload();
-                (Resolved::Payload{ id, sys: None }, Action::Broadcast(*ty, id))
+                let carries = carry_for(case, id);
+                (Resolved::Payload{ id, sys: None, carries }, Action::Broadcast(*ty, id))
             }
             Op::EntityEvent(e, ty) =>
             {
                 let id = case.new_payload();
-                (Resolved::Payload{ id, sys: None }, Action::EntityEvent(ent(case, *e), *ty, id))
+                let carries = carry_for(case, id);
+                (Resolved::Payload{ id, sys: None, carries }, Action::EntityEvent(ent(case, *e), *ty, id))
             }
             Op::Insert(e, c, v) => (Resolved::None, Action::Insert(ent(case, *e), *c, *v)),
             Op::Mutate(e, c) => (Resolved::None, Action::Mutate(ent(case, *e), *c)),
@@ -700,16 +771,16 @@ fn perform(c: &mut Commands, action: Action, resolved: &Resolved)
     {
         Action::Nothing => {}
         Action::RunSys(e) => c.queue(SystemCommand(e)),
-        Action::SysEvent(e, 0, id) => c.send_system_event(SystemCommand(e), Pay::<0>::new(id)),
-        Action::SysEvent(e, _, id) => c.send_system_event(SystemCommand(e), Pay::<1>::new(id)),
-        Action::Broadcast(0, id) => c.react().broadcast(Pay::<0>::new(id)),
-        Action::Broadcast(_, id) => c.react().broadcast(Pay::<1>::new(id)),
+        Action::SysEvent(e, 0, id) => c.send_system_event(SystemCommand(e), Pay::<0>::of_case(id)),
+        Action::SysEvent(e, _, id) => c.send_system_event(SystemCommand(e), Pay::<1>::of_case(id)),
+        Action::Broadcast(0, id) => c.react().broadcast(Pay::<0>::of_case(id)),
+        Action::Broadcast(_, id) => c.react().broadcast(Pay::<1>::of_case(id)),
         // the same call through every way of obtaining a `ReactCommands`: `Commands::react`, a reborrow of it, its
         // inner `Commands`, and `EntityCommands::react` (only for an entity that exists when the call is made)
         Action::EntityEvent(e, ty, id) =>
         {
             let via_entity = id % 4 == 1 && c.get_entity(e).is_some();
-            macro_rules! send { ($rc:expr) => { if ty == 0 { $rc.entity_event(e, Pay::<0>::new(id)) } else { $rc.entity_event(e, Pay::<1>::new(id)) } } }
+            macro_rules! send { ($rc:expr) => { if ty == 0 { $rc.entity_event(e, Pay::<0>::of_case(id)) } else { $rc.entity_event(e, Pay::<1>::of_case(id)) } } }
             if via_entity { let mut ec = c.entity(e); send!(ec.react()); }
             else if id % 4 == 2 { let mut rc = c.react(); send!(rc.reborrow()); }
             else if id % 4 == 3 { let mut rc = c.react(); send!(rc.commands().react()); }
@@ -842,12 +913,12 @@ fn direct_op(world: &mut World, sender: Sender, op: &Op)
     match action
     {
         Action::RunSys(e) => SystemCommand(e).apply(world),
-        Action::SysEvent(e, 0, id) => world.send_system_event(SystemCommand(e), Pay::<0>::new(id)),
-        Action::SysEvent(e, _, id) => world.send_system_event(SystemCommand(e), Pay::<1>::new(id)),
-        Action::Broadcast(0, id) => world.broadcast(Pay::<0>::new(id)),
-        Action::Broadcast(_, id) => world.broadcast(Pay::<1>::new(id)),
-        Action::EntityEvent(e, 0, id) => world.entity_event(e, Pay::<0>::new(id)),
-        Action::EntityEvent(e, _, id) => world.entity_event(e, Pay::<1>::new(id)),
+        Action::SysEvent(e, 0, id) => world.send_system_event(SystemCommand(e), Pay::<0>::of_case(id)),
+        Action::SysEvent(e, _, id) => world.send_system_event(SystemCommand(e), Pay::<1>::of_case(id)),
+        Action::Broadcast(0, id) => world.broadcast(Pay::<0>::of_case(id)),
+        Action::Broadcast(_, id) => world.broadcast(Pay::<1>::of_case(id)),
+        Action::EntityEvent(e, 0, id) => world.entity_event(e, Pay::<0>::of_case(id)),
+        Action::EntityEvent(e, _, id) => world.entity_event(e, Pay::<1>::of_case(id)),
         Action::TriggerMutation(e, 0) => React::<CA>::trigger_mutation(e, world),
         Action::TriggerMutation(e, _) => React::<CB>::trigger_mutation(e, world),
         Action::ResTrigger(0) => world.trigger_resource_mutation::<RA>(),
@@ -983,6 +1054,17 @@ fn run_inner(program: &Program)
 {
     PENDING_SLOT_OPS.with(|p| p.borrow_mut().clear());
     let mut app = App::new();
+    // in half of the programs one persistent reactor is registered through the App extension before the plugin is added
+    let early = program.setup.n_entities % 2 == 0;
+    let sentinel_cell = Arc::new(std::sync::atomic::AtomicU32::new(u32::MAX));
+    if early
+    {
+        let keys: Vec<KeyR> = SENTINEL_KEYS.iter().map(|k| match *k {
+            Key::Broadcast(t) => KeyR::Broadcast(t), Key::AnyEntityEvent(t) => KeyR::AnyEntityEvent(t), Key::ResourceMutation(r) => KeyR::ResourceMutation(r),
+            Key::Insertion(c) => KeyR::Insertion(c), Key::Mutation(c) => KeyR::Mutation(c), Key::Removal(c) => KeyR::Removal(c), _ => unreachable!(),
+        }).collect();
+        app.add_reactor(DynBundle::new(&keys), sentinel_system(sentinel_cell.clone()));
+    }
     app.add_plugins(ReactPlugin);
     app.insert_react_resource(RA(0));
     app.insert_react_resource(RB(0));
@@ -1032,6 +1114,29 @@ fn run_inner(program: &Program)
         with_case(|case| case.bind_system_entity(uid, *cmd));
     }
 
+    if early
+    {
+        let def = Arc::new(SysDef{ shape: Shape::Minimal, result: ResKind::Unit, reg_mode: RegMode::Persistent, scripts: Vec::new() });
+        let uid = with_case(|case| case.add_system(def.clone(), None, None, None));
+        sentinel_cell.store(uid as u32, std::sync::atomic::Ordering::Relaxed);
+        let world = app.world_mut();
+        let all = verif_system_commands(world);
+        with_case(|case| {
+            let unknown: Vec<Entity> = all.into_iter().filter(|e| !case.ent_index.contains_key(e)).collect();
+            if unknown.len() == 1 { case.bind_system_entity(uid, unknown[0]); }
+        });
+        let resolved = Resolved::Register{ sys: uid, mode: RegMode::Persistent, api: RegApi::OnPersistent, keys: SENTINEL_KEYS.to_vec(), token: None };
+        let op = Op::Register{ target: RegTarget::Fresh{ template: 0, api: FreshApi::OnPersistent }, bundle: SENTINEL_KEYS.to_vec() };
+        let facts = take_facts(world);
+        make_visible(&resolved);
+        push(Ev::Op{ sender: Sender::Top(u32::MAX), idx: 0, op, resolved, facts });
+        let facts = take_facts(world);
+        push(Ev::OpDone{ sender: Sender::Top(u32::MAX), idx: 0, facts });
+    }
+    {
+        let d = app.world().resource::<AutoDespawner>().clone();
+        with_case(|case| case.despawner = Some(d));
+    }
     verif_set_sink(Box::new(forward_hook));
     quiescent(app.world_mut(), 0);
 
